@@ -13,7 +13,7 @@ import z3
 
 from pyvc import slicer
 from pyvc.core import family, resolve, Missing
-from pyvc.sym import SymInt, SymReal, SymBool, term, Unsupported, cur, is_sym, sym_float, sym_int, sym_isinstance
+from pyvc.sym import SymInt, SymReal, SymBool, term, Unsupported, cur, is_sym, sym_float, sym_int, sym_isinstance, FloatUF
 from pyvc.util import patched, script
 from pyvc.verify import verify
 from . import irsem
@@ -312,6 +312,14 @@ def veq(a, b):
     return teq(a, b)
 
 
+def ieee(run):
+    """The obligation `run` under the uninterpreted (IEEE) float model, see pyvc.sym.FloatUF."""
+    def run_ieee(ctx):
+        with FloatUF():
+            return run(ctx)
+    return run_ieee
+
+
 SCALAR_BIN = ["ADD", "SUB", "MUL", "DIV", "MOD", "LG_AND", "LG_OR", "CMP_GT", "CMP_LT", "CMP_LE", "CMP_GE", "CMP_NE", "CMP_EQ"]
 NSL_OP = {"ADD": "+", "SUB": "-", "MUL": "*", "DIV": "/", "MOD": "%", "LG_AND": "&&", "LG_OR": "||", "CMP_GT": ">", "CMP_LT": "<", "CMP_LE": "<=",
           "CMP_GE": ">=", "CMP_NE": "!=", "CMP_EQ": "=="}
@@ -397,6 +405,10 @@ def step_binary(R):
                 return replay_binary(opname, k0, k1, model)
 
             verify(R, f"VM.step.{opname}", EXEC, run, replay, label=f"{k0}x{k1}")
+            if opname in ("ADD", "SUB", "MUL", "DIV") and not both_int:
+                # the same obligation with float arithmetic UNINTERPRETED (IEEE view): the arm applies exactly the one operator the opcode
+                # names to exactly the two operand values (no reciprocal, no re-association)
+                verify(R, f"VM.step.{opname}", EXEC, ieee(run), replay, label=f"{k0}x{k1},ieee")
     # division by zero is the defined failure
     for opname in ("DIV", "MOD"):
         h = Harness({"p": T("i")})
@@ -945,6 +957,8 @@ def step_vector(R):
                     return [("value", veq(got, want), f"{opc} on {kind}{n}"), ("operands-intact", z3.BoolVal(len(a) == n and len(b) == n))] + frame_goals(h, writes_local=[ins.Reference])
 
                 verify(R, f"VM.step.{opc}", EXEC, run, label=f"{kind}{n}")
+                if kind == "f" and "CMP" not in opc:
+                    verify(R, f"VM.step.{opc}", EXEC, ieee(run), label=f"{kind}{n},ieee")
 
     for opc, sop in (("VECTOR_MUL_SCALAR", "MUL"), ("VECTOR_DIV_SCALAR", "DIV")):
         for n in (2, 3, 4):
@@ -966,6 +980,8 @@ def step_vector(R):
                     return [("value", veq(got, want), f"{opc} on {kind}{n}")] + frame_goals(h, writes_local=[ins.Reference])
 
                 verify(R, f"VM.step.{opc}", EXEC, run, label=f"{kind}{n}")
+                if kind == "f":
+                    verify(R, f"VM.step.{opc}", EXEC, ieee(run), label=f"{kind}{n},ieee")
 
     for n in (3, 4):
         def run(ctx, n=n):
